@@ -301,7 +301,7 @@ def extract_pin_cite(
         parenthetical = process_parenthetical(m["parenthetical"])
         return (
             pin_cite,
-            from_token.end + extra_chars - len(prefix),
+            from_token.end + max(extra_chars - len(prefix), 0),
             parenthetical,
         )
     return None, None, None
